@@ -56,7 +56,7 @@ pub fn profile(name: &str) -> Profile {
         (K::SnapDowngrade, 2), (K::WsCounted, 2), (K::WsUpgrade, 4), (K::WStore, 2), (K::WSwap, 1), (K::WCas, 1),
         (K::WLoad, 2), (K::WithTag, 1), (K::Pin, 4), (K::Unpin, 6), (K::Reactivate, 1), (K::ReactivateAfter, 1),
         (K::Flush, 2), (K::Churn, 8), (K::Deref, 10), (K::NewMany, 1), (K::NewIter, 1), (K::IterNext, 2),
-        (K::IterDrop, 1), (K::IterAbort, 1), (K::WeakMany, 1), (K::LinkChain, 2),
+        (K::IterDrop, 1), (K::IterAbort, 1), (K::WeakMany, 1), (K::LinkChain, 2), (K::LocalCell, 3), (K::LocalWCell, 3), (K::Convert, 3),
     ]);
     let mut p = Profile {
         name: "rc",
@@ -85,7 +85,7 @@ pub fn profile(name: &str) -> Profile {
                 (K::Cas, 6), (K::CasWeak, 2), (K::Load, 8), (K::Counted, 10), (K::Downgrade, 6), (K::WeakDrop, 2),
                 (K::Upgrade, 12), (K::WeakSnap, 2), (K::WsUpgrade, 3), (K::Pin, 3), (K::Unpin, 6), (K::Churn, 10),
                 (K::Deref, 12), (K::NewMany, 2), (K::NewIter, 2), (K::IterNext, 3), (K::IterDrop, 1), (K::IterAbort, 1),
-                (K::Flush, 2), (K::LinkChain, 1), (K::WLoad, 1), (K::WStore, 1), (K::WeakMany, 3), (K::WeakClone, 1),
+                (K::Flush, 2), (K::LinkChain, 1), (K::WLoad, 1), (K::WStore, 1), (K::WeakMany, 3), (K::WeakClone, 1), (K::LocalCell, 4), (K::Convert, 3),
             ]);
             p.stall_sites = vec![
                 S::INCS_ADD2, S::INCS_ADD2, S::INCS_ADD2, S::INCS_ADD1, S::DECS_LOAD, S::DECS_CAS, S::DECS_DEFER, S::TD_LOAD,
@@ -116,7 +116,7 @@ pub fn profile(name: &str) -> Profile {
                 (K::Downgrade, 12), (K::WeakMany, 2), (K::WeakClone, 6), (K::WeakDrop, 12), (K::Upgrade, 8),
                 (K::WeakSnap, 8), (K::SnapDowngrade, 4), (K::WsCounted, 10), (K::WsUpgrade, 6), (K::WStore, 8),
                 (K::WSwap, 6), (K::WCas, 6), (K::WCasTag, 2), (K::WLoad, 10), (K::Pin, 4), (K::Unpin, 5),
-                (K::Churn, 10), (K::Deref, 10), (K::Flush, 2),
+                (K::Churn, 10), (K::Deref, 10), (K::Flush, 2), (K::LocalWCell, 5), (K::Convert, 4),
             ]);
             p.stall_sites = vec![
                 S::DECW_SUB, S::DECW_DEFER, S::DECW_DEFER, S::TRY_DEALLOC_LOAD, S::TRY_DEALLOC_LOAD, S::INCW_LOAD,
@@ -148,7 +148,7 @@ pub fn profile(name: &str) -> Profile {
             p.weights = w(&[
                 (K::New, 8), (K::Clone, 4), (K::DropRc, 4), (K::Store, 10), (K::Swap, 10), (K::Cas, 14), (K::CasWeak, 5),
                 (K::CasTag, 8), (K::Load, 14), (K::WithTag, 6), (K::Pin, 3), (K::Unpin, 3), (K::Reactivate, 1),
-                (K::Churn, 8), (K::Counted, 2), (K::Deref, 3), (K::Restamp, 8),
+                (K::Churn, 8), (K::Counted, 2), (K::Deref, 3), (K::Restamp, 8), (K::LocalCell, 4), (K::Convert, 2),
             ]);
             p.record_cells = true;
             p.nroots = 2;
@@ -167,7 +167,7 @@ pub fn profile(name: &str) -> Profile {
                 (K::New, 8), (K::DropRc, 3), (K::Store, 6), (K::Load, 8), (K::Downgrade, 10), (K::WeakClone, 3),
                 (K::WeakDrop, 3), (K::WeakSnap, 8), (K::SnapDowngrade, 10), (K::WStore, 10), (K::WSwap, 10),
                 (K::WCas, 16), (K::WCasTag, 8), (K::WLoad, 14), (K::WithTag, 5), (K::Pin, 3), (K::Unpin, 3),
-                (K::Churn, 10), (K::WsCounted, 4), (K::Deref, 3), (K::Swap, 3), (K::Restamp, 8), (K::WRestamp, 14),
+                (K::Churn, 10), (K::WsCounted, 4), (K::Deref, 3), (K::Swap, 3), (K::Restamp, 8), (K::WRestamp, 14), (K::LocalWCell, 5), (K::Convert, 3),
             ]);
             p.record_wcells = true;
             p.nroots = 1;
